@@ -39,7 +39,7 @@ func runC01(w *World) *Result {
 	SignRule(w, r, "R-C01-sign")
 	r.Rule("R-C01-chain", "else-if and else continue the open if construct (one compound command: exactly one branch runs)", 2)
 	ChainRule(w, bash, r, "R-C01-chain")
-	r.Rule("R-C01-emitcond", "no line is emitted or left out depending on the text of a value (a loop's exit test, a branch header, an assignment are there for every operand)", 30)
+	r.Rule("R-C01-emitcond", "no line is emitted or left out depending on the text of a value (a loop's exit test, a branch header, an assignment are there for every operand)", 12)
 	EmitCondRule(w, bash, r, "R-C01-emitcond")
 	r.Rule("R-C01-scope", "loop and branch constructs declare their variables in a clone of the context: sibling constructs can reuse a name (well-typed programs stay accepted)", 3)
 	if cf, err := buildCtxFacts(w); err == nil {
@@ -56,7 +56,7 @@ func runC01(w *World) *Result {
 	ReentrantRule(w, r, "R-C01-reentrant")
 	r.Rule("R-C01-prec", "operator levels of the expression parser follow Go's precedence; all levels left-associative; every operator on one level", 8)
 	PrecRule(w, r, "R-C01-prec")
-	r.Rule("R-C01-dispatch", "every constructed node kind has its handler", 25)
+	r.Rule("R-C01-dispatch", "every constructed node kind has its handler", 10)
 	DispatchRule(w, r, "R-C01-dispatch")
 	return r
 }
@@ -159,7 +159,7 @@ func runC02(w *World) *Result {
 	r := NewResult("C02")
 	r.Explanation = "Decides structural conditions of calls and variable isolation. Parser (ident): every statement that refers to an existing variable stores the definition the context lookup returned (emitted name and global flag as defined), and lookups reach file-prefixed globals from function scope. Emitters: (mangle) a helper allocated by a converter method is written and read under one name form inside functions; (reg) return registers are written and read with the same stem and index in both back ends, read right after the call line, arguments bound positionally in order."
 	r.NotDecided = "actual isolation at run time when user names collide with the mangling scheme (C10); values through nested calls."
-	r.Rule("R-C02-mangle", "helper stored and read under the same (mangled) name within one converter method", 30)
+	r.Rule("R-C02-mangle", "helper stored and read under the same (mangled) name within one converter method", 12)
 	r.Rule("R-C02-reg", "return/argument registers: writer and reader agree on stem and index; reads follow the call line", 5)
 	r.Rule("R-C02-frame", "the numeric prefix of function-local names is a counter advanced only by FuncStart, before its first line", 2)
 	r.Rule("R-C02-pop", "every construct stack pushed by an opener is popped by its closer, and a pop removes exactly the top element (the function stack decides whether names are mangled as locals)", 2)
@@ -183,7 +183,7 @@ func runC02(w *World) *Result {
 		FrameRule(w, b, r, "R-C02-frame")
 		PopRule(w, role, r, "R-C02-pop", "FuncStart")
 	}
-	r.Rule("R-C02-wiring", "names, values and global flags of definitions, assignments, calls and evaluations reach the Converter parameter they belong to", 15)
+	r.Rule("R-C02-wiring", "names, values and global flags of definitions, assignments, calls and evaluations reach the Converter parameter they belong to", 8)
 	WiringRule(w, r, "R-C02-wiring", func(m string) bool {
 		switch m {
 		case "VarDefinition", "VarAssignment", "VarEvaluation", "FuncStart", "FuncCall", "Return":
@@ -191,7 +191,7 @@ func runC02(w *World) *Result {
 		}
 		return false
 	})
-	r.Rule("R-C02-driver", "calls and returns: every argument / returned value is evaluated once, as a used value, in order, before the converter call", 5)
+	r.Rule("R-C02-driver", "calls and returns: every argument / returned value is evaluated once, as a used value, in order, before the converter call", 2)
 	ProtoRule(w, r, "R-C02-driver", func(n string) bool {
 		switch n {
 		case "FunctionCall", "FunctionDefinition", "Return", "VariableDefinitionCallAssignment", "VariableAssignmentCallAssignment":
@@ -211,7 +211,7 @@ func c02Store(w *World, r *Result) {
 		return
 	}
 	for _, d := range df.Fns {
-		if d.Node != "VariableAssignment" {
+		if d.Node != "VariableAssignment" && !handlesThroughInterface(w, d.Fn, "VariableAssignment") {
 			continue
 		}
 		bad := ""
@@ -366,4 +366,22 @@ func listRoot(v ssa.Value, seen map[ssa.Value]bool, d int) []ssa.Value {
 		}
 	}
 	return []ssa.Value{v}
+}
+
+// handlesThroughInterface: fn takes its node as an interface declared by the driver that the
+// named node type implements (one handler for several node types of the same shape).
+func handlesThroughInterface(w *World, fn *ssa.Function, node string) bool {
+	if len(fn.Params) < 2 {
+		return false
+	}
+	named, ok := fn.Params[1].Type().(*types.Named)
+	if !ok || named.Obj().Pkg() != w.Pkgs["transpiler"].Types {
+		return false
+	}
+	iface, ok := named.Underlying().(*types.Interface)
+	if !ok || iface.NumMethods() == 0 {
+		return false
+	}
+	obj := w.Pkgs["parser"].Types.Scope().Lookup(node)
+	return obj != nil && (types.Implements(obj.Type(), iface) || types.Implements(types.NewPointer(obj.Type()), iface))
 }
